@@ -62,8 +62,59 @@ impl<'tcx> Cx<'tcx> {
         }
     }
 
-    fn path(&self, d: DefId) -> String {
+    fn raw_path(&self, d: DefId) -> String {
         with_no_trimmed_paths!(self.tcx.def_path_str(d))
+    }
+
+    /// Canonical path: `<SelfTy as Trait>::f` / `SelfTy::f` for associated items whatever module the impl
+    /// block sits in (def_path_str prints `module::<impl ..>::f` for impls outside the type's module);
+    /// items nested in functions and closures are `parent::name` / `parent::{closure#n}`.
+    fn path(&self, d: DefId) -> String {
+        let tcx = self.tcx;
+        let kind = tcx.def_kind(d);
+        let parent = match tcx.opt_parent(d) {
+            Some(p) => p,
+            None => return self.raw_path(d),
+        };
+        let pk = tcx.def_kind(parent);
+        match kind {
+            DefKind::AssocFn | DefKind::AssocConst { .. } | DefKind::AssocTy => {
+                if let DefKind::Impl { of_trait } = pk {
+                    let st = tcx.type_of(parent).instantiate_identity().skip_norm_wip();
+                    let name = tcx.item_name(d);
+                    if of_trait {
+                        let tr = tcx.impl_trait_ref(parent).instantiate_identity().skip_norm_wip();
+                        return with_no_trimmed_paths!(format!(
+                            "<{} as {}>::{}",
+                            st,
+                            tr.print_only_trait_path(),
+                            name
+                        ));
+                    }
+                    return with_no_trimmed_paths!(format!("{}::{}", st, name));
+                }
+                self.raw_path(d)
+            }
+            DefKind::Closure => {
+                let key = tcx.def_key(d);
+                format!("{}::{{closure#{}}}", self.path(parent), key.disambiguated_data.disambiguator)
+            }
+            DefKind::Fn | DefKind::Static { .. } | DefKind::Const { .. } => {
+                if matches!(pk, DefKind::Fn | DefKind::AssocFn | DefKind::Closure) {
+                    let key = tcx.def_key(d);
+                    let dis = key.disambiguated_data.disambiguator;
+                    let name = tcx.item_name(d);
+                    if dis == 0 {
+                        format!("{}::{}", self.path(parent), name)
+                    } else {
+                        format!("{}::{}#{}", self.path(parent), name, dis)
+                    }
+                } else {
+                    self.raw_path(d)
+                }
+            }
+            _ => self.raw_path(d),
+        }
     }
 
     fn span_s(&self, sp: rustc_span::Span) -> (String, usize, bool) {
